@@ -59,8 +59,8 @@ impl KesVerifierStandard {
     //@ rewrite /\.map_err\(\|_\| KesVerifyError::OpCertInvalid\)/ => /.map_err(|_e: RegError| -> (r: KesVerifyError) { KesVerifyError::OpCertInvalid })/
     //@ rewrite /\.map_err\(\|_\| KesVerifyError::InvalidKesEvolutions\(kes_evolutions\)\)/ => /.map_err(|_e: core::num::TryFromIntError| -> (r: KesVerifyError) { KesVerifyError::InvalidKesEvolutions(kes_evolutions) })/
     //@ rewrite /(\w+)\.\.=(\w+)/ => /\1..(\2 + 1)/
-    //@ rewrite /std::cmp::max\(/ => /max_u64(/
-    //@ rewrite /std::cmp::min\(/ => /min_u64(/
+    //@ rewrite? /std::cmp::max\(/ => /max_u64(/
+    //@ rewrite? /std::cmp::min\(/ => /min_u64(/
     //@ rewrite /\)\s*\.into\(\)\)/ => /))/
     //@ spec ensures ret is Ok ==> opcert_valid(operational_certificate) && exists|t: u32| in_window(t, kes_evolutions.0) && #[trigger] kes_sig_valid(signature, t, kes_vk(operational_certificate), message@)
     //@ loop 0 invariant opcert_valid(operational_certificate), kes_evolutions_try_min as int + 1 >= kes_evolutions.0, kes_evolutions_try_max <= 64, kes_evolutions_try_max as int <= kes_evolutions.0 + 1,
